@@ -51,6 +51,42 @@ func compileCached(expr string) *regexp.Regexp {
 	return r
 }
 
+// PatternStatus classifies a pattern string by the documented syntax only:
+// +1 well-formed, -1 one of the documented syntax errors (empty string, empty
+// name, adjacent parameters, duplicate names, uncompilable regexp), 0 anything
+// the documentation does not settle (unbalanced braces and the like).
+func PatternStatus(raw string, ics []string) int {
+	if raw == "" {
+		return -1
+	}
+	if _, ok := ParsePattern(raw, ics); ok {
+		return 1
+	}
+	if strings.Contains(raw, "{-}") || strings.Contains(raw, "{-:") {
+		return 0 // a '-' flag without a name: the documentation does not say
+	}
+	// balanced and brace-free literals?  then the failure is a documented error
+	depth := 0
+	for i := 0; i < len(raw); i++ {
+		switch raw[i] {
+		case '{':
+			depth++
+			if depth > 1 {
+				return 0
+			}
+		case '}':
+			depth--
+			if depth < 0 {
+				return 0
+			}
+		}
+	}
+	if depth != 0 {
+		return 0
+	}
+	return -1
+}
+
 // ParsePattern tokenises a well-formed pattern. ics is the interceptor set of
 // the router. ok=false for anything this parser does not consider well-formed.
 func ParsePattern(raw string, ics []string) (*Pattern, bool) {
